@@ -565,6 +565,17 @@ def load_database(dbpath, rootdir):
                 for f in entry["include_paths"]
             ]
 
+            # A file given with -include is looked up in the directory in
+            # which the command runs before the usual quote-include chain.
+            entry["include_files"] = [
+                (
+                    os.path.abspath(os.path.join(filedir, f))
+                    if os.path.isfile(os.path.join(filedir, f))
+                    else f
+                )
+                for f in entry["include_files"]
+            ]
+
             configuration += [entry]
 
             # Print variables for debugging purposes.
